@@ -698,6 +698,15 @@ class Program:
                 return {"frozenset": frozenset(), "set": frozenset(), "tuple": (), "list": [], "dict": {}}[fn]
             if fn == "dict" and not args:
                 return {k.arg: ev(k.value) for k in node.keywords if k.arg}
+            if fn == "dict" and len(args) == 1 and not node.keywords:
+                a0 = args[0]
+                if isinstance(a0, dict):
+                    return dict(a0)
+                if isinstance(a0, (tuple, list)) and all(isinstance(x, (tuple, list)) and len(x) == 2 for x in a0):
+                    try:
+                        return {k_: v_ for k_, v_ in a0}
+                    except TypeError:
+                        return Unknown("dict of unhashable keys", node)
             if fn in ("int", "float", "str", "len") and len(args) == 1 and not isinstance(args[0], Unknown):
                 try:
                     return {"int": int, "float": float, "str": str, "len": len}[fn](args[0])
